@@ -75,6 +75,9 @@ def hex_blocks(rng: random.Random, sizes: List[int], w: int, big_divs=((10, 2),)
             shf = rng.randrange(0, n - sn + 1)
             add("add_shifted", "hex.add_shifted {n}, {m}, {v0}, {v1}, {sh}", 2, n, m=sn, sh=shf)
             add("sub_shifted", "hex.sub_shifted {n}, {m}, {v0}, {v1}, {sh}", 2, n, m=sn, sh=rng.randrange(0, n - sn + 1))
+            # the shifted source may reach beyond the destination (src_n + hex_shift > dst_n): the result is taken mod 16^dst_n
+            add("add_shifted", "hex.add_shifted {n}, {m}, {v0}, {v1}, {sh}", 2, n, m=rng.randrange(1, n + 1), sh=rng.randrange(1, n + 1))
+            add("sub_shifted", "hex.sub_shifted {n}, {m}, {v0}, {v1}, {sh}", 2, n, m=rng.randrange(1, n + 1), sh=rng.randrange(1, n + 1))
         if n <= 4:
             nb = rng.randrange(1, n + 1)
             add("div", "hex.div {n}, {m}, {v0}, {v1}, {v2}, {v3}, {div0}", 4, n, m=nb, branches=("div0",))
